@@ -234,51 +234,80 @@ fn subscription(flavour: Flavour, n_ext: usize, out: &mut CaseOut) {
         let _ = seen_per_key.entry(key.clone()).and_modify(|n| *n += 1).or_insert(0);
         let used = answered.entry(*ch).or_default();
         let by_id = data[&key]["id"].as_i64().map(|i| i as i32).filter(|i| per_channel[ch].contains(i));
-        let ev_found = match by_id {
+        // errors of other roots in this response?
+        let foreign: Vec<&(String, String)> = errs.iter().filter(|(p, _)| p.split('.').next() != Some(key.as_str())).collect();
+        if !foreign.is_empty() {
+            out.viol("C27/foreign-error", format!("response for '{key}' carries errors of another root field: {:?}; response: {resp}; {ctx}", foreign));
+            return;
+        }
+        // candidates: the event named by the payload's id, or - for a response without data - every
+        // unanswered event of that root field (an implementation may skip events; then only the
+        // response's own content can tell which event it answers)
+        let candidates: Vec<i32> = match by_id {
             Some(i) => {
                 if used.contains(&i) {
                     out.viol("C27/duplicate-response", format!("event {i} of '{key}' was answered twice: {resp}; {ctx}"));
                     return;
                 }
-                Some(i)
+                vec![i]
             }
-            None => per_channel[ch].iter().find(|e| !used.contains(*e)).cloned(),
+            None => per_channel[ch].iter().filter(|e| !used.contains(*e)).cloned().collect(),
         };
-        let Some(ev) = ev_found else {
+        if candidates.is_empty() {
             out.viol("C27/extra-response", format!("root key '{key}' produced more responses than its channel had events: {resp}; {ctx}"));
             return;
-        };
-        used.insert(ev);
-        let ev = &ev;
-        // errors of other events / other roots in this response?
-        let foreign: Vec<&(String, String)> = errs.iter().filter(|(p, _)| p.split('.').next() != Some(key.as_str())).collect();
-        if !foreign.is_empty() {
-            out.viol("C27/foreign-error", format!("response for event {ev} of '{key}' carries errors of another root field: {:?}; response: {resp}; {ctx}", foreign));
-            return;
         }
-        let b = &base_by_event[ev];
-        let own_log: Vec<super::world::REvent> = run.log.iter().filter(|e| e.ev == *ev).cloned().collect();
         let mut root_types = BTreeMap::new();
         root_types.insert(key.clone(), Ty::parse(field_def("Subscription", field).unwrap().ty));
-        match expected_ext(b, &own_log, &root_types, &errs, true) {
-            Err(e) => {
-                sim::log(format!("unattributable: {e}"));
-                out.discarded = true;
+        let mut first_problem: Option<(&'static str, String)> = None;
+        let mut matched: Option<i32> = None;
+        for ev in &candidates {
+            let b = &base_by_event[ev];
+            let own_log: Vec<super::world::REvent> = run.log.iter().filter(|e| e.ev == *ev).cloned().collect();
+            let problem: Option<(&'static str, String)> = match expected_ext(b, &own_log, &root_types, &errs, true) {
+                Err(e) => {
+                    sim::log(format!("unattributable: {e}"));
+                    out.discarded = true;
+                    None
+                }
+                Ok((exp_data, exp_errs)) => {
+                    let exp = if exp_data.is_null() { J::Null } else { exp_data };
+                    // an error *item* of the source is not a field failure of an event: whether the
+                    // response then has `data: null` or a null root field is not judged here
+                    let source_error_item = own_log.iter().any(|e| matches!(e.kind, RKind::Failed(_)) && e.path == key);
+                    if errs != exp_errs {
+                        let class = if errs.len() > exp_errs.len() { "C27/foreign-error" } else { "C27/missing-error" };
+                        Some((class, format!("response for event {ev} of '{key}': errors expected {:?} got {:?}; response: {resp}; {ctx}", exp_errs, errs)))
+                    } else if data != exp && !(source_error_item && (data.is_null() || data[&key].is_null())) {
+                        Some(("C27/wrong-data", format!("response for event {ev} of '{key}': data expected {exp} got {data}; {ctx}")))
+                    } else {
+                        None
+                    }
+                }
+            };
+            match problem {
+                None => {
+                    matched = Some(*ev);
+                    break;
+                }
+                Some(p) => {
+                    if first_problem.is_none() {
+                        first_problem = Some(p);
+                    }
+                }
             }
-            Ok((exp_data, exp_errs)) => {
-                if errs != exp_errs {
-                    let class = if errs.len() > exp_errs.len() { "C27/foreign-error" } else { "C27/missing-error" };
-                    out.viol(class, format!("response for event {ev} of '{key}': errors expected {:?} got {:?}; response: {resp}; {ctx}", exp_errs, errs));
-                    return;
+        }
+        match matched {
+            Some(ev) => {
+                if candidates.len() > 1 && ev != candidates[0] {
+                    sim::count("probe:response-attributed-past-skipped-events");
                 }
-                let exp = if exp_data.is_null() { J::Null } else { exp_data };
-                // an error *item* of the source is not a field failure of an event: whether the
-                // response then has `data: null` or a null root field is not judged here
-                let source_error_item = own_log.iter().any(|e| matches!(e.kind, RKind::Failed(_)) && e.path == key);
-                if data != exp && !(source_error_item && (data.is_null() || data[&key].is_null())) {
-                    out.viol("C27/wrong-data", format!("response for event {ev} of '{key}': data expected {exp} got {data}; {ctx}"));
-                    return;
-                }
+                used.insert(ev);
+            }
+            None => {
+                let (class, detail) = first_problem.unwrap();
+                out.viol(class, detail);
+                return;
             }
         }
     }
